@@ -174,7 +174,8 @@ def r_uescape(ctx, prog, rule="R-UESCAPE"):
     fns = [f for f in sorted(prog.q("JsonDeserializer::parseQuotedString"), key=lambda f: f.key)]
     ctx.floor(rule, "parseQuotedString", len(fns), 1)
     fn = fns[0]
-    if not any(st["callee"]["q"].endswith("encodeCodepoint") for _, st in fn.calls()):
+    reach = prog.reachable([fn.key])
+    if not any(f_.key in reach for f_ in prog.q("Utf8::encodeCodepoint")):
         ctx.count(rule + ":skipped_decode_unicode_off", 1)
         return
     # the `if (c == 'u')` branch
@@ -199,7 +200,7 @@ def r_uescape(ctx, prog, rule="R-UESCAPE"):
         return
 
     def hook_hex(m, fr, i, st):
-        a = fn.s(fn.strip(st["args"][0], casts=True))
+        a = fr.fn.s(fr.fn.strip(st["args"][0], casts=True))
         fr.env[a["ref"]["d"]] = Aff.sym("cu")
         return Aff.const(0)
 
@@ -347,5 +348,11 @@ def run(ctx, prog, only_hex=False):
     if only_hex:
         return
     _memo(ctx, prog, "utf8", ["Utf8::encodeCodepoint"], r_utf8)
-    _memo(ctx, prog, "uesc", ["JsonDeserializer::parseQuotedString", "Utf8::encodeCodepoint", "Utf16::Codepoint::append",
+    extra = []
+    for f_ in sorted(prog.q("JsonDeserializer::parseQuotedString"), key=lambda f: f.key)[:1]:
+        for k_ in sorted(prog.reachable([f_.key])):
+            g_ = prog.fns.get(k_)
+            if g_ is not None and g_.cls.endswith("JsonDeserializer") and g_.name not in ("current", "move", "parseQuotedString"):
+                extra.append("JsonDeserializer::" + g_.name)
+    _memo(ctx, prog, "uesc", sorted(set(extra)) + ["JsonDeserializer::parseQuotedString", "Utf8::encodeCodepoint", "Utf16::Codepoint::append",
                               "Utf16::Codepoint::value", "Utf16::isHighSurrogate", "Utf16::isLowSurrogate", "Utf16::Codepoint::Codepoint"], r_uescape)
